@@ -181,13 +181,15 @@ class Interp:
         self.solver.add(cond)
         # first a short attempt with the integer encoding; a model that is hard to find there is usually
         # found quickly by the exact bit-vector back end below (measured: 20 s timeouts vs. 7-28 s)
+        # (the assertion list is read BEFORE check(): afterwards z3 may hand back internal skolems such as mod!N)
+        assertions = list(self.solver.assertions())
         self.solver.set("timeout", min(self.timeout_ms, self.feas_first_ms))
         r = self.solver.check()
         self.solver.set("timeout", self.timeout_ms)
-        assertions = list(self.solver.assertions()) if r == z3.unknown else None
         if r == z3.unknown and not self._bv_translatable(assertions):
             r = self.solver.check()
-            assertions = list(self.solver.assertions()) if r == z3.unknown else None
+        if r != z3.unknown:
+            assertions = None
         self.solver.pop()
         if r == z3.unknown:
             # second back end (fixed-width bit-vectors, exact for bounded integers)
@@ -511,6 +513,12 @@ class Interp:
     def resolve_const(self, text):
         if text in self.fns:
             return text
+        if "::promoted[" in text and "::<" in text:
+            # promoted constant of a generic function: the definition is printed without the type arguments
+            stripped = re.sub(r"::<[^<>]*>", "", text)
+            r = self.resolve_const(stripped) if stripped != text else None
+            if r is not None:
+                return r
         m = re.fullmatch(r"(.*)::promoted\[(\d+)\]", text)
         if m:
             want = last_segment(m.group(1)) + f"::promoted[{m.group(2)}]"
